@@ -145,10 +145,7 @@ pub open spec fn dcd_post(data: (&[u8], usize), r: nom::IResult<(&[u8], usize), 
 # ---------------------------------------------------------------------------------------------- 7 / 13 / 20 (lists)
 def ack_spec(struct, prefix):
     return '''
-pub open spec fn ack_post(data: (&[u8], usize), r: nom::IResult<(&[u8], usize), Acknowledgement>) -> bool {
-    &&& leaf_ok(data, 32, r)
-    &&& forall|orig: Seq<u8>, p: int| #[trigger] at(orig, data, p) && r is Ok ==> r->Ok_0.1.mmsi == fld(orig, p, 30) && r->Ok_0.1.seq_num == fld(orig, p + 30, 2)
-}
+''' + leaf_post('ack_post', 'Acknowledgement', 32, 'x.mmsi == v / 4 - 0 * v && x.mmsi == fld(orig, p, 30) && x.seq_num == fld(orig, p + 30, 2)').replace('x.mmsi == v / 4 - 0 * v && ', '').replace('%', '%%') + '''
 pub open spec fn %(p)s_C04(o: Seq<u8>, r: core::result::Result<%(s)s, ()>) -> bool {
     let n = 8 * o.len();
     let k = if (n - 40) / 32 >= 4 { 4 } else { (n - 40) / 32 };
@@ -188,11 +185,7 @@ def apply_safety_ack(fc):
 def apply_dlm(fc):
     fc.add_prologue(MSG_PROLOGUE)
     fc.add_epilogue('''
-pub open spec fn slot_post(data: (&[u8], usize), r: nom::IResult<(&[u8], usize), SlotReservation>) -> bool {
-    &&& leaf_ok(data, 30, r)
-    &&& forall|orig: Seq<u8>, p: int| #[trigger] at(orig, data, p) && r is Ok ==> ({ let s = r->Ok_0.1;
-        s.offset == fld(orig, p, 12) && s.num_slots == fld(orig, p + 12, 4) && s.timeout == fld(orig, p + 16, 3) && s.increment == fld(orig, p + 19, 11) })
-}
+''' + leaf_post('slot_post', 'SlotReservation', 30, 'x.offset == fld(orig, p, 12) && x.num_slots == fld(orig, p + 12, 4) && x.timeout == fld(orig, p + 16, 3) && x.increment == fld(orig, p + 19, 11)') + '''
 pub open spec fn t20_C04(o: Seq<u8>, r: core::result::Result<DataLinkManagementMessage, ()>) -> bool {
     let n = 8 * o.len();
     let k = if (n - 40) / 30 >= 4 { 4 } else { (n - 40) / 30 };
@@ -234,14 +227,13 @@ T9 = HDR + [
 ]
 
 
+T9_EXTRA = {'C14': ['fld(o, 0, 6) == 9 ==> (r is Ok <==> n >= 168)'],
+            # signature of known finding D5: the selector bit is not consumed, SOTDMA is read one bit early
+            'KFD5': ['fld(o, 0, 6) == 9 && r is Ok ==> sotdma_at(o, 148, r->Ok_0.radio_status)']}
+
+
 def apply_sar(fc):
-    std_message(fc, 't9', 'SARPositionReport', T9, {'C14': ['fld(o, 0, 6) == 9 ==> (r is Ok <==> n >= 168)']},
-                more_spec='''
-/// signature of known finding D5 (the selector bit is not consumed: SOTDMA is read one bit early)
-pub open spec fn t9_D5(o: Seq<u8>, r: core::result::Result<SARPositionReport, ()>) -> bool {
-    fld(o, 0, 6) == 9 && r is Ok ==> sotdma_at(o, 148, r->Ok_0.radio_status)
-}
-''')
+    std_message(fc, 't9', 'SARPositionReport', T9, T9_EXTRA)
     fc.contract('parse_altitude', ensures=['r == opt_ne_u16(data as int, 4095)'])
     fc.contract('parse_speed_over_ground_sar', ensures=['sog_sar_rel(data, r)'])
 
@@ -463,7 +455,9 @@ pub open spec fn imsg_post(data: (&[u8], usize), r: nom::IResult<(&[u8], usize),
         &&& (r is Ok && rem >= 18 ==> r->Ok_0.1.slot_offset == opt_ne_u16(fld(orig, p + 6, 12), 0) && at(orig, r->Ok_0.0, p + 18))
         &&& (r is Ok && rem < 18 ==> r->Ok_0.1.slot_offset is None && at(orig, r->Ok_0.0, p + 6)) })
 }
-/// a destination block at bit p: MMSI, first request, optional second request after 2 spare bits
+/// a destination block at bit p: MMSI, first request, optional second request after 2 spare bits.
+/// The second request is only specified when the first slot offset is present (rem >= 48); with a whole-byte
+/// payload and the blocks at bits 40 / 110 the other case cannot arise (DESIGN.md C14).
 pub open spec fn station_at(orig: Seq<u8>, p: int, s: Station) -> bool {
     let rem = 8 * orig.len() - p;
     &&& s.mmsi == fld(orig, p, 30)
@@ -471,14 +465,15 @@ pub open spec fn station_at(orig: Seq<u8>, p: int, s: Station) -> bool {
     &&& s.messages@[0].message_type == fld(orig, p + 30, 6)
     &&& (rem >= 48 ==> s.messages@[0].slot_offset == opt_ne_u16(fld(orig, p + 36, 12), 0))
     &&& (rem < 48 ==> s.messages@[0].slot_offset is None)
-    &&& (s.messages@.len() == 2 ==> rem >= 56 && s.messages@[1].message_type == fld(orig, p + 50, 6)
+    &&& (rem >= 48 && s.messages@.len() == 2 ==> rem >= 56 && s.messages@[1].message_type == fld(orig, p + 50, 6)
             && (rem >= 68 ==> s.messages@[1].slot_offset == opt_ne_u16(fld(orig, p + 56, 12), 0)) && (rem < 68 ==> s.messages@[1].slot_offset is None))
     // the second request is reported exactly when it is present and not all-zero
-    &&& (s.messages@.len() == 2 <==> rem >= 56 && (fld(orig, p + 50, 6) != 0 || (rem >= 68 && fld(orig, p + 56, 12) != 0)))
+    &&& (rem >= 48 ==> (s.messages@.len() == 2 <==> rem >= 56 && (fld(orig, p + 50, 6) != 0 || (rem >= 68 && fld(orig, p + 56, 12) != 0))))
 }
+/// where the cursor stands after a destination block (helper, follows the code)
 pub open spec fn station_end(orig: Seq<u8>, p: int) -> int {
     let rem = 8 * orig.len() - p;
-    if rem < 48 { p + 36 } else if rem < 56 { p + 48 } else if rem < 68 { p + 56 } else { p + 68 }
+    if rem < 44 { p + 36 } else if rem < 48 { p + 44 } else if rem < 56 { p + 48 } else if rem < 68 { p + 56 } else { p + 68 }
 }
 pub open spec fn station_post(data: (&[u8], usize), r: nom::IResult<(&[u8], usize), Station>) -> bool {
     &&& (r is Err ==> r->Err_0 is Error)
@@ -502,7 +497,7 @@ pub open spec fn t15_C14(o: Seq<u8>, r: core::result::Result<Interrogation, ()>)
     let n = 8 * o.len();
     &&& (r is Ok ==> n >= 76)
     &&& (88 <= n < 138 ==> r is Ok && r->Ok_0.stations@.len() == 1)
-    &&& (n >= 160 ==> r is Ok && r->Ok_0.stations@.len() == 2)
+    &&& (n == 160 ==> r is Ok && r->Ok_0.stations@.len() == 2)
 }
 '''
     fc.add_prologue(MSG_PROLOGUE)
@@ -537,3 +532,44 @@ FILES = {
     'messages/long_range_ais_broadcast.rs': apply_long_range,
     'messages/interrogation.rs': apply_interrogation,
 }
+
+
+# ---------------------------------------------------------------------------------------------- dispatch table (C09)
+def _tags(fields, extra):
+    tags = []
+    for f in fields:
+        if f[4] not in tags:
+            tags.append(f[4])
+    for t in (extra or {}):
+        if t not in tags:
+            tags.append(t)
+    return tags
+
+
+def type_table():
+    """[(type numbers, AisMessage variant, module, struct, prefix, [tags])] — the variant column is the property's table"""
+    import c_position_report as pr
+    c14 = {'C14': []}
+    return [
+        ((1, 2, 3), 'PositionReport', 'position_report', 'PositionReport', 't1', _tags(pr.FIELDS, pr.EXTRA)),
+        ((4,), 'BaseStationReport', 'base_station_report', 'BaseStationReport', 't4', _tags(base_station_fields(4), c14)),
+        ((5,), 'StaticAndVoyageRelatedData', 'static_and_voyage_related_data', 'StaticAndVoyageRelatedData', 't5', _tags(T5, c14)),
+        ((6,), 'BinaryAddressedMessage', 'binary_addressed', 'BinaryAddressedMessage', 't6', _tags(T6, c14)),
+        ((7,), 'BinaryAcknowledgeMessage', 'binary_acknowledge', 'BinaryAcknowledge', 't7', ['C04', 'C14']),
+        ((8,), 'BinaryBroadcastMessage', 'binary_broadcast_message', 'BinaryBroadcastMessage', 't8', _tags(T8, c14)),
+        ((9,), 'StandardAircraftPositionReport', 'standard_aircraft_position_report', 'SARPositionReport', 't9', _tags(T9, T9_EXTRA)),
+        ((10,), 'UtcDateInquiry', 'utc_date_inquiry', 'UtcDateInquiry', 't10', _tags(T10, c14)),
+        ((11,), 'UtcDateResponse', 'utc_date_response', 'UtcDateResponse', 't11', _tags(base_station_fields(11), c14)),
+        ((12,), 'AddressedSafetyRelatedMessage', 'addressed_safety_related', 'AddressedSafetyRelatedMessage', 't12', _tags(T12, c14)),
+        ((13,), 'SafetyRelatedAcknowledgment', 'safety_related_acknowledgment', 'SafetyRelatedAcknowledge', 't13', ['C04', 'C14']),
+        ((14,), 'SafetyRelatedBroadcastMessage', 'safety_related_broadcast', 'SafetyRelatedBroadcastMessage', 't14', _tags(T14, c14)),
+        ((15,), 'Interrogation', 'interrogation', 'Interrogation', 't15', ['C04', 'C14']),
+        ((16,), 'AssignmentModeCommand', 'assignment_mode_command', 'AssignmentModeCommand', 't16', _tags(T16, c14)),
+        ((17,), 'DgnssBroadcastBinaryMessage', 'dgnss_broadcast_binary_message', 'DgnssBroadcastBinaryMessage', 't17', _tags(T17, c14)),
+        ((18,), 'StandardClassBPositionReport', 'standard_class_b_position_report', 'StandardClassBPositionReport', 't18', _tags(T18, c14)),
+        ((19,), 'ExtendedClassBPositionReport', 'extended_class_b_position_report', 'ExtendedClassBPositionReport', 't19', _tags(T19, c14)),
+        ((20,), 'DataLinkManagementMessage', 'data_link_management_message', 'DataLinkManagementMessage', 't20', ['C04', 'C14']),
+        ((21,), 'AidToNavigationReport', 'aid_to_navigation_report', 'AidToNavigationReport', 't21', _tags(T21, c14)),
+        ((24,), 'StaticDataReport', 'static_data_report', 'StaticDataReport', 't24', ['C04', 'C14']),
+        ((27,), 'LongRangeAisBroadcastMessage', 'long_range_ais_broadcast', 'LongRangeAisBroadcastMessage', 't27', _tags(T27, c14)),
+    ]
